@@ -301,10 +301,6 @@ func dumpAll(w b6.World, qs []query) []string {
 // ---- worker --------------------------------------------------------------------------------------
 
 func runSpec(sp Spec) string {
-	if os.Getenv("C35_TIMING") != "" {
-		t0 := time.Now()
-		defer func() { fmt.Fprintf(os.Stderr, "timing %s %v\n", sp.Workload, time.Since(t0)) }()
-	}
 	fs := features(sp)
 	qs := queries(sp, fs)
 	switch sp.Workload {
